@@ -24,6 +24,11 @@ end OtterVerif.Bv
 
 namespace OtterVerif
 
+/-- two's-complement wrap of a mathematical integer into the signed w-bit range (w ∈ {8,16,32,64}) -/
+def wrapS (w : Nat) (x : Int) : Int := (x + 2 ^ (w - 1)) % 2 ^ w - 2 ^ (w - 1)
+/-- wrap into the unsigned w-bit range -/
+def wrapU (w : Nat) (x : Int) : Int := x % 2 ^ w
+
 /-- int64 bounds -/
 def maxI64 : Int := 9223372036854775807
 def minI64 : Int := -9223372036854775808
